@@ -182,6 +182,8 @@ PROPS = {
     ),
     "C11": dict(
         pkg="./internal/net", test="TestVerifC11", model="C11", verdict="C11v", level="proof", diff_is_failure=False,
+        # a request that never returns keeps the bubble waiting in real time: cut short and reported with the executing case
+        timeout={"quick": 120, "thorough": 900},
         rule="a case is a history of SendRequest / SendMessage / OnDisconnect calls and bursts of concurrent requests (NewStream held back "
              "until all callers are under way) to 1-3 peers on the real message sender over fake streams, against remotes scripted "
              "per request read: answer, reset, garbage, silence (read timeout in virtual time), EOF, NewStream failures, and "
